@@ -194,6 +194,7 @@ package astits
 //@   at call (*astikit.BytesIterator).Offset#1 assert cutEnd: i.offset == o + consumed
 //@   ensures [C11,C16] fresh: err == nil ==> a != nil && fresh(a)
 //@   ensures [C11,C02] length: err == nil ==> a.Length == L
+//@   ensures [C11,C01] onebyte: err == nil ==> a.IsOneByteStuffing == (L == 0)
 //@   ensures [C11,C03] offset: err == nil ==> i.offset == o + consumed
 //@   ensures [C11] stuffing: err == nil ==> a.StuffingLength == L - (consumed - 1)
 //@   ensures [C11,C06] disc: err == nil ==> a.DiscontinuityIndicator == (L > 0 && bit(fl, 0x80))
